@@ -26,7 +26,7 @@ class Registration(Stream):
 
     def generate(self, rng, tier):
         import perdec
-        n_cfg = 4 if tier == "quick" else 24
+        n_cfg = 6 if tier == "quick" else 24
         cfgs = []
         for i in range(n_cfg):
             r = rng.fork("cfg%d" % i)
@@ -44,7 +44,11 @@ class Registration(Stream):
             fid = [256, 0, (1 << 40) - 2, 1 << 32, 65536, 1 << 24, 255, None][i % 8]          # first AMF-UE-NGAP-ID the network assigns: ends of the range, exact powers of 256
             if fid is not None:
                 cfg["first_amf_id"] = fid
-            if i % 4 >= 2:
+            if i % 8 in (4, 5):
+                # the shortest and the longest RAN node names (SIZE(1..150,...)): short strings take the other alignment rule
+                ln = [1, 2, 3, 150][(i % 8 - 4) + 2 * ((i // 8) % 2)]
+                cfg["gnb_name"] = "".join(r.choice("abcdefgh-XYZ019") for _ in range(ln))
+            elif i % 4 >= 2:
                 # RAN node names at which an enclosing X.691 length determinant is exactly 128 (the first two-octet
                 # length): the name IE value for 126 characters, the whole message for the length found by trying
                 lens = self.boundary_names(cfg)
